@@ -91,6 +91,11 @@ type World struct {
 	CrashAtGate  int
 	crashGateCnt int
 	OnCrash      func(t *Task, at GateInfo)
+	// airgapped crash plan: the CrashAirAt-th gate granted to any airgapped
+	// task (start / air.afterResult / air.afterLog) kills that machine
+	CrashAirAt int
+	airGateCnt int
+	OnAirCrash func(t *Task, at GateInfo)
 
 	// GateHook, when set, is called by the scheduler before each grant
 	// (gate-level scenarios use it to record the gate sequence).
@@ -181,6 +186,7 @@ func NewWorld(tape *sim.Tape) *World {
 		Abstract:     map[string]bool{},
 	}
 	w.Board = newBoard(w)
+	yieldWorld.Store(w)
 	return w
 }
 
@@ -315,6 +321,20 @@ func (w *World) Grant(t *Task) {
 	}
 	if w.GateHook != nil {
 		w.GateHook(t, *g)
+	}
+	if t.Air >= 0 && t.Node < 0 {
+		w.airGateCnt++
+		if w.CrashAirAt > 0 && w.airGateCnt == w.CrashAirAt {
+			w.Log.Add("crash %s at %s %s", t.Name, g.Point, g.Key)
+			w.Stats.Fault("crash-cold")
+			if w.OnAirCrash != nil {
+				w.OnAirCrash(t, *g)
+			}
+			w.Gates++
+			t.grant <- cmdCrash
+			w.settle()
+			return
+		}
 	}
 	w.Gates++
 	if cmd == cmdCrash {
